@@ -28,7 +28,7 @@ def run(chk):
     rng, thorough = chk.rng, chk.tier == "thorough"
     proof_ok = chk.proofs()
     jobs = []
-    fam = relay_family(rng, 120 if thorough else 28)
+    fam = relay_family(rng, 240 if thorough else 64)
     for k, rl in enumerate(fam):
         forced = k % 4 == 3
         cfg = W.random_config(rng, {"qtype": 65432, "downenc": "-", "autofrag": 1, "raw_mode": 0})
@@ -80,6 +80,27 @@ def run(chk):
     chk.notes["frames_delivered"] = delivered
     for r in res[:3]:
         chk.sample({"relay": r["relay"], "negotiated": r["negotiated"], "handshake": str(r["handshake"])})
+    # the negotiation MODEL of the theorems (Lemmas/C11b.lean) against the real client: predicted vs negotiated upstream / downstream codec
+    drv = chk.driver()
+    npred, nbad = 0, 0
+    if drv:
+        ops, exp = [], []
+        for r, j in zip(res, jobs):
+            rl = j[2]
+            if r["scenario"] != "auto" or r["handshake"] != ("ret", 0) or rl["case"] == "random" or r["dead"]:
+                continue
+            ops.append("negot %s %s %s %d %s %s" % (rl["case"], "strip" if rl["hi"] == "strip" else "clean", rl["punct"], 1 if rl["hi"] == "reject" else 0,
+                                                    r["negotiated"]["qt"], vlib.hx(b"t.example.com")))
+            dn = r["negotiated"].get("dn") or " "
+            exp.append("up=%d dn=%d" % ({"b32": 0, "b64": 1, "b64u": 2, "b128": 3}[r["negotiated"]["enc"]], ord(dn[0])))
+        out = vlib.run_lines(drv, ops).lines if ops else []
+        for o, e, l in zip(ops, exp, out):
+            npred += 1
+            if e != l and not chk.violations:
+                nbad += 1
+                chk.violation("correspondence broken (negotiation model of C11 vs the real client): for `%s` the model predicts %s, the real client negotiated %s; no delivery failure found" % (o, l, e),
+                              ["# correspondence C11L.upencAutodetect/downencAutodetect vs client.c handshake no longer checks", o], no_input=True)
+    chk.notes["negotiation_predictions_compared"] = npred
     W.report_client_model(chk, res, "C11")
     if not chk.violations and not proof_ok:
         chk.violation("proof obligation no longer checks: " + chk.proof_detail,
